@@ -688,7 +688,7 @@ struct numeric_limits<float> {
 
     static constexpr bool traps                    = false;
     static constexpr bool tinyness_before          = false;
-    static constexpr float_round_style round_style = round_toward_zero;
+    static constexpr float_round_style round_style = round_to_nearest;
 };
 
 template <>
@@ -732,7 +732,7 @@ struct numeric_limits<double> {
 
     static constexpr bool traps                    = false;
     static constexpr bool tinyness_before          = false;
-    static constexpr float_round_style round_style = round_toward_zero;
+    static constexpr float_round_style round_style = round_to_nearest;
 };
 
 template <>
@@ -776,7 +776,7 @@ struct numeric_limits<long double> {
 
     static constexpr bool traps                    = false;
     static constexpr bool tinyness_before          = false;
-    static constexpr float_round_style round_style = round_toward_zero;
+    static constexpr float_round_style round_style = round_to_nearest;
 };
 
 template <typename T>
